@@ -159,7 +159,7 @@ def step (line : String) : String :=
       let m := A.nodeOfJson ((j.getObjVal? "module").toOption.getD Json.null)
       let search := A.searchOfJson ((j.getObjVal? "search").toOption.getD Json.null)
       let m := if (j.getObjValAs? Bool "annotate").toOption.getD true then PyAst.annotate m else m
-      (match PyAst.findInAst search m with
+      (match PyAst.findTotal 1000000 search m with
        | .node n => Json.mkObj [("ok", A.nodeToJson n),
             ("loc", match n.loc with | some l => Json.arr (l.map A.atomToJson).toArray | none => Json.null),
             ("default", match n.dflt with | some it => A.itemToJson it | none => Json.null)]
@@ -347,7 +347,7 @@ def step (line : String) : String :=
         match acc with
         | .error e => .error e
         | .ok out =>
-          match PyAst.findInAst pr.1 inp with
+          match PyAst.findTotal 1000000 pr.1 inp with
           | .raises k => .error k
           | .none => .error "AssertionError"
           | .node repl =>
